@@ -24,6 +24,8 @@ EXPLANATION = (
     "The cosine clamp before acos is checked as a pure two-sided range clamp: values above 1 go to 1 AND values below -1 go to -1 "
     "(a one-sided abs() clamp sends -1.0000000000000002, which too-small radii produce, to +1: the half turn becomes no arc). Not "
     "decided: that sampled points satisfy the ellipse equation numerically; behaviour at exactly half a turn."
+    " R05.4 also requires Point.__eq__ - which decides 'coincident endpoints' - to be an absolute tolerance (no"
+    ' isclose with a relative tolerance).'
 )
 TECHNIQUE = (
     "static analysis (no execution): guard-selected straight-line statements folded into exact canonical forms for all 16 (radii small?, fA=fS?, cross<0?, fS?) cells and compared with SVG F.6.5/F.6.6; clamp shape check; degenerate branches of the evaluators"
